@@ -212,8 +212,9 @@ public:
             map_.erase(it);
         }
 
-        // store iterator to linked list entry in map
-        map_.insert(std::make_pair(key, list_.begin()));
+        // store iterator to linked list entry in map. key itself may refer
+        // into the entry that was just erased: use the new entry's copy.
+        map_.insert(std::make_pair(list_.begin()->first, list_.begin()));
     }
 
     //! touch pair in LRU cache for key. Throws if it is not in the map.
